@@ -93,6 +93,8 @@ class C04(Prop):
                    'notify is a generated configuration only; nothing is asserted about *_value_changed')
     budget = {'quick': (1200, 4), 'thorough': (10000, 16)}
 
+    shrink_lists = {'events': 1, 'handlers': 1, 'fire': 0, 'steps': 0}
+
     def setup(self):
         driver.quiet_process()
 
